@@ -31,7 +31,7 @@ META = {
     "explanation": "Decides the clauses of C14 whose truth is in the shape of the code; each is a necessary condition (breaking it shifts or "
                    "mislabels positions behind a non-ASCII character, on another line, or in another file). That the two scans are inverse to "
                    "each other and strictly monotone for every text is arithmetic over runtime strings and is NOT decided: a slip that keeps "
-                   "all of the above (e.g. a wrong saturating operation, an off-by-one inside clamping) is invisible here.",
+                   "all of the above (e.g. a wrong saturating operation, an off-by-one inside clamping) is invisible here. U12 (engine U, lib/units.py): no byte position or byte length - text_size constructors, str slicing, String editing, Lexer::bump - depends on a count of characters or UTF-16 units; decided by a backward dependence closure from every byte sink of the three crates.",
     "not_decided": "round-trip identity and monotonicity of the conversions for all documents; behaviour on a lone CR (removed by design); "
                    "positions inside a surrogate pair (rejected elsewhere, C15).",
     "trusted_base": ["rustc MIR and constant evaluation", "UTF-8 / UTF-16 encoding lengths (the oracle table)", "lsp_types::Position::new / Range::new store their arguments"],
